@@ -392,3 +392,39 @@ def check_flags(model, R, P_, modname, rules=('PROP', 'ATTACH', 'COVER'), names=
         if '<other>' in bad_cov:
             R.ob(RN('COVER'), q, 'writes to other gradient buffers', False, str(bad_cov['<other>'][:2]), f.loc)
     return results
+
+
+def check_presence(model, R, P_):
+    """optional tensor operands are tested for presence; a bare truthiness test `if bias:` is a presence test only as long as Tensor defines no
+    value-dependent __bool__ (with one, a present one-element bias that is exactly 0 is treated as absent: dropped from the graph, no gradient)"""
+    R.rule(P_ + '.PRESENCE', 'presence of an optional tensor operand is decided by identity (`is None`), or by truthiness only while Tensor defines no value-dependent __bool__', floor=1)
+    tcls = model.cls(TENSOR)
+    has_bool = '__bool__' in tcls.methods
+    sites = []
+    for mod in OP_MODULES:
+        for f in model.module_functions(mod):
+            ops = {o[0] for o in _operands(f) if o[2]}
+            if not ops:
+                continue
+            for n in ast.walk(f.node):
+                tests = []
+                if isinstance(n, (ast.If, ast.IfExp, ast.While)):
+                    tests.append(n.test)
+                if isinstance(n, ast.BoolOp):
+                    tests.extend(n.values)
+                if isinstance(n, ast.UnaryOp) and isinstance(n.op, ast.Not):
+                    tests.append(n.operand)
+                for t in tests:
+                    if isinstance(t, ast.Name) and t.id in ops:
+                        sites.append((f, t))
+    if not sites:
+        R.ob(P_ + '.PRESENCE', TENSOR, 'no truthiness test on an optional tensor operand', True, '', tcls.loc)
+        return
+    seen = set()
+    for f, t in sites:
+        key = (f.qualname, t.id)
+        if key in seen:
+            continue
+        seen.add(key)
+        R.ob(P_ + '.PRESENCE', f.qualname, 'truthiness test of optional operand `%s`%s' % (t.id, ' while Tensor defines __bool__' if has_bool else ' (Tensor defines no __bool__)'), not has_bool,
+             'Tensor.__bool__ makes `if %s:` depend on the VALUE of the operand: a present %s that is exactly zero (one element) is treated as absent' % (t.id, t.id), '%s:%d' % (f.mod.relpath, t.lineno))
